@@ -288,6 +288,34 @@ pub fn text_lines(pool: &NamePool, max: usize) -> BoxedStrategy<Vec<TextLine>> {
                         19..=21 => out.push(TextLine::Raw(format!("{indent}at {}.{}({}:+{})", f.class, f.method, f.file.as_deref().unwrap_or("<unknown>"), f.line))),
                         22..=24 => out.push(TextLine::Raw(format!("{indent}at {}.{}({}:0{})", f.class, f.method, f.file.as_deref().unwrap_or("<unknown>"), f.line))),
                         25..=26 => out.push(TextLine::Raw(format!("{indent}at  {}.{}({}:{})", f.class, f.method, f.file.as_deref().unwrap_or("<unknown>"), f.line))),
+                        // near misses of the frame shape built from the same (often resolving) frame: which of them
+                        // are frames is decided by the harness's own recogniser (model::traceparse)
+                        27..=50 => {
+                            let (c, m, fl, n) = (&f.class, &f.method, f.file.as_deref().unwrap_or("<unknown>"), f.line);
+                            out.push(TextLine::Raw(match dice {
+                                27 | 28 => format!("{indent}at {c}.{m}(jar:file:{fl}:{n})"),
+                                29 | 30 => format!("{indent}at {c}.{m}({fl}:{n}:{n})"),
+                                31 => format!("{indent}at {c}.{m}(:{fl}:{n})"),
+                                32 => format!("{indent}at {c}.{m}(::{n})"),
+                                33 | 34 => format!("{indent}at {c}.{m}({fl}:{n}) ~[lib-1.0.jar:1.0]"),
+                                35 => format!("{indent}at {c}.{m}({fl}:{n}) [app.jar:na]"),
+                                36 => format!("{indent}at {c}.{m}({fl}:{n}))"),
+                                37 => format!("{indent}at {c}.{m}(({fl}:{n})"),
+                                38 => format!("{indent}at {c}.{m}({fl}:{n})\u{a0}"),
+                                39 => format!("\u{feff}at {c}.{m}({fl}:{n})"),
+                                40 => format!("{indent}At {c}.{m}({fl}:{n})"),
+                                41 => format!("{indent}at\t{c}.{m}({fl}:{n})"),
+                                42 => format!("{indent}at {c}.{m}({fl}: {n})"),
+                                43 => format!("{indent}at {c}.{m}({fl}:{n} )"),
+                                44 => format!("{indent}at {c}.{m}(Util(1).java:{n})"),
+                                45 => format!("{indent}at {c}.{m}(D (copy).kt:{n})"),
+                                46 => format!("{indent}at {c}.{m}({fl}:{n}) // note"),
+                                47 => format!("{indent}at app//{c}.{m}({fl}:{n})"),
+                                48 => format!("{indent}at {c}.{m}({fl}:{n}:)"),
+                                49 => format!("{indent}at {c}.{m}({fl}:-{n})"),
+                                _ => format!("{indent}at {c}.{m}({fl};{n})"),
+                            }));
+                        }
                         _ => {}
                     }
                 }
